@@ -39,6 +39,21 @@ def run(pid, tier, seed, root, repo, env):
             if rc != 0:
                 out["fails"].append({"prop": "C18", "what": "concurrent-expansion-differs-from-sequential", "start": "sendsync %d %d %d" % (seed * 100 + k, threads, states),
                                      "actions": [], "detail": (so + se)[-1500:]})
+        # concurrent RELEASE: the last owners of one long shared history let go of it at the same moment on 2 MiB
+        # threads (Props/C18c.lean); a Drop that is only sequentially right aborts the process here
+        p = subprocess.run(["cargo", "build", "--release", "--offline", "--bin", "longgame"], cwd=harness, stdout=subprocess.PIPE, stderr=subprocess.STDOUT, text=True, env=env)
+        if p.returncode == 0:
+            rounds = 25 if tier == "quick" else 200
+            exe = os.path.join(harness, "target", "release", "longgame")
+            rc, so, se = _run([exe, "race", "120000", str(rounds)], env, 3600)
+            out["evals"] += rounds
+            out["counts"]["C18-concurrent-release-rounds"] = rounds
+            out["samples"].append({"longgame race 120000 %d" % rounds: so.strip()[:200], "exit": rc})
+            if rc != 0:
+                out["fails"].append({"prop": "C18", "what": "concurrent-release-of-shared-history-aborts", "start": "harness/target/release/longgame race 120000 %d" % rounds,
+                                     "actions": [], "detail": "exit status %d: %s" % (rc, (se or so)[-600:])})
+        else:
+            out["broken"].append({"kind": "harness-build", "what": p.stdout[-1500:]})
         return out
     if pid == "C20":
         p = subprocess.run(["cargo", "build", "--release", "--offline", "--bin", "longgame"], cwd=harness, stdout=subprocess.PIPE, stderr=subprocess.STDOUT, text=True, env=env)
